@@ -82,7 +82,7 @@ def run(a):
                 if m:
                     c.diff(ops, impl, m, stateful=True, hbin=hbin, exe=exe, fail_first=True)
                     c.cov["programs"] = sum(v for k, v in st.items() if k.startswith("schedule:")) + st.get("random-case", 0)
-                    c.cov["exhaustive"] = "schedules of <= 3 (quick) / 4 (thorough) callers at start/issue/arrive granularity"
+                    c.cov["exhaustive"] = False  # exhaustive only over schedules of <= 3 (quick) / 4 (thorough) callers; see rule
         c.prove("ClientGoVerif.Props.C13")
     return c.finish()
 
